@@ -1190,6 +1190,7 @@ func (tx *FnTx) enterLoop(li *loopInfo, pre *State) *State {
 		env := tx.baseEnv(pre, tx.entry)
 		env.resolve = tx.resolverAt(li.header, li.phiHead, false)
 		env.preferLocals = true
+		env.loopHead = li.header
 		for _, inv := range li.spec.Invariants {
 			s, err := env.TrBool(inv.E)
 			if err != nil {
@@ -1294,6 +1295,7 @@ func (tx *FnTx) enterLoop(li *loopInfo, pre *State) *State {
 		env := tx.baseEnv(head, tx.entry)
 		env.resolve = tx.resolverAt(li.header, nil, false)
 		env.preferLocals = true
+		env.loopHead = li.header
 		for _, inv := range li.spec.Invariants {
 			s, err := env.TrBool(inv.E)
 			if err != nil {
@@ -1581,6 +1583,7 @@ func (tx *FnTx) backEdge(u, h *ssa.BasicBlock, succIdx int, st *State) {
 		env := tx.baseEnv(st, tx.entry)
 		env.resolve = tx.resolverAt(h, over, false)
 		env.preferLocals = true
+		env.loopHead = h
 		for _, inv := range li.spec.Invariants {
 			s, err := env.TrBool(inv.E)
 			if err != nil {
@@ -1594,6 +1597,21 @@ func (tx *FnTx) backEdge(u, h *ssa.BasicBlock, succIdx int, st *State) {
 				panic(specErr{fmt.Sprintf("%s decreases: %v", tx.loopName(li), err)})
 			}
 			tx.oblige("dec", fmt.Sprintf("%s@b%d", tx.loopName(li), u.Index), sand("(>= "+li.decHead+" 0)", "(< "+m.S+" "+li.decHead+")"), cond, li.spec.DecSrc)
+		}
+		// per-iteration facts: stated over the values at the end of the iteration (names resolve at the back edge's source
+		// block) and, through head(x), the values the iteration started with; not assumed anywhere
+		if len(li.spec.BackAsserts) > 0 {
+			benv := tx.baseEnv(st, tx.entry)
+			benv.resolve = tx.resolverUpTo(u, nil, true, -1)
+			benv.preferLocals = true
+			benv.loopHead = h
+			for _, ba := range li.spec.BackAsserts {
+				s, err := benv.TrBool(ba.E)
+				if err != nil {
+					panic(specErr{fmt.Sprintf("%s backedge assert %s: %v", tx.loopName(li), ba.Label, err)})
+				}
+				tx.oblige("backedge", fmt.Sprintf("%s.%s@b%d", tx.loopName(li), ba.Label, u.Index), s, cond, ba.Src)
+			}
 		}
 	}
 	// frame of the loop body: heap outside the declared regions is unchanged w.r.t. loop entry
@@ -1773,6 +1791,11 @@ func (tx *FnTx) resolveMod(it ModItem, env *SpecEnv) (regs []ModRegion, err erro
 	}
 	// slice expression or slice value: all of it
 	v := env.tr(it.E, false)
+	if mt, ok := mapTypeOf(v.GT); ok {
+		// a map object: its key set and its values
+		dom, val := tx.mapComps(mt)
+		return []ModRegion{{Comp: dom, Ref: v.S}, {Comp: val, Ref: v.S}}, nil
+	}
 	if v.Sort != "Slice" {
 		return nil, fmt.Errorf("modifies item must be a slice, slice range, p.f or deref(p)")
 	}
